@@ -46,6 +46,9 @@ def c11(ci, fi, n, user):
         kw = {}
     body = FRAGS[fi].replace('@', name) + free       # '@' stands for the environment's own name
     body_ok(body)
+    term = '\\end{' + name + '}'
+    for i in range(len(body) - len(term) + 1):
+        SX.assume(SX.Not(SX.s_eq(body[i:i + len(term)], term)))     # the body is the text before the first \end{name}
     pre, post = CTX[ci]
     src = pre + '\\begin{' + name + '}' + body + '\\end{' + name + '}' + post
     det = lambda: {'source': src, 'skip_envs': repr(kw)}
